@@ -130,6 +130,15 @@ def _priceable(job):
         out["pf"] = [[float(pf[projs[n]]) for n in case.names] for pf in res.payment_functions]
         out["validate"] = bool(validate_price_system(inst, prof, res.allocation, res.voter_budget, res.payment_functions,
                                                      stable=bool(job.get("stable")), exhaustive=bool(job.get("exhaustive"))))
+        if job.get("feedback"):
+            # the price system just found, handed back as the caller's own (allocation, voter budget, payment functions): a price
+            # system exists, so the call must succeed (round 7, C12-r7A: a shortcut for fully specified calls that dropped `exhaustive`)
+            try:
+                res2 = priceable(inst, prof, list(res.allocation), voter_budget=res.voter_budget, payment_functions=res.payment_functions,
+                                 stable=bool(job.get("stable")), exhaustive=bool(job.get("exhaustive")), max_seconds=int(job.get("max_seconds", 30)))
+                out["feedback"] = {"status": res2.status.name, "validate": bool(res2.validate())}
+            except Exception as e:  # noqa: BLE001
+                out["feedback"] = {"status": "raised " + type(e).__name__ + ": " + str(e)[:120], "validate": False}
     return out
 
 
@@ -148,6 +157,13 @@ def _relax(job):
     W = job.get("W")
     alloc = None if W is None else [projs[n] for n in W]
     R = getattr(rel, RELAX_CLASSES[job["kind"]])(inst, prof)
+    if job.get("W_prior") is not None:
+        # the caller's relaxation object has been through another search before (round 7, C12-r7B: per-project values of the earlier
+        # search surviving in the object): the answer of THIS call is judged like any other
+        try:
+            priceable(inst, prof, [projs[n] for n in job["W_prior"]], stable=True, exhaustive=False, relaxation=R, max_seconds=int(job.get("max_seconds", 30)))
+        except Exception:  # noqa: BLE001
+            pass
     res = priceable(inst, prof, alloc, stable=True, exhaustive=bool(job.get("exhaustive")), relaxation=R,
                     max_seconds=int(job.get("max_seconds", 30)))
     out = {"status": res.status.name}
